@@ -128,6 +128,23 @@ def r3_opt_map(text, log, **kw):
         return None
     text = _fix(text, step, log, "R3")
 
+    def step_at(t):
+        s = Src(t)
+        for p in _find_method(s, "and_then"):
+            cl = _closure(s, p + 2)
+            if not cl:
+                continue
+            pat, blo, bhi, _ = cl
+            if _has_return(s, blo, bhi):
+                raise Undecided("R3: closure body contains `return`")
+            r = receiver_start(s, p)
+            recv = s.slice(r, p - 1)
+            body = s.slice(blo, bhi)
+            repl = "match %s { Some(%s) => %s, None => None }" % (recv, pat, body)
+            return _edit(t, s, r, s.closer(p + 2), repl)
+        return None
+    text = _fix(text, step_at, log, "R3")
+
     def step2(t):
         s = Src(t)
         for p in _find_method(s, "map_or"):
@@ -342,7 +359,40 @@ def r12_valueref(text, log, **kw):
     return text
 
 
+# --- R3e: Result::map_err with a closure -> match (definition of map_err) ----------------------------------------
+def r3_map_err(text, log, **kw):
+    def step(t):
+        s = Src(t)
+        for p in _find_method(s, "map_err"):
+            cl = _closure(s, p + 2)
+            if not cl:
+                continue
+            pat, blo, bhi, _ = cl
+            if _has_return(s, blo, bhi):
+                raise Undecided("R3: closure body contains `return`")
+            r = receiver_start(s, p)
+            recv = s.slice(r, p - 1)
+            body = s.slice(blo, bhi)
+            repl = "(match %s { Ok(vx_ok) => Ok(vx_ok), Err(%s) => Err(%s) })" % (recv, pat, body)
+            return _edit(t, s, r, s.closer(p + 2), repl)
+        return None
+    return _fix(text, step, log, "R3")
+
+
+# --- RF: `format!(..)` only builds error texts here; replaced by an opaque String (always listed) ------------------
+def rf_format(text, log, **kw):
+    def step(t):
+        s = Src(t)
+        for p in range(len(s) - 2):
+            if s.txt(p) == "format" and s.is_(p + 1, "!") and s.kind(p + 2) == "open":
+                return _edit(t, s, p, s.closer(p + 2), "vx_error_text()")
+        return None
+    return _fix(text, step, log, "RF")
+
+
 RULES = {
+    "R3e": r3_map_err,
+    "RF": rf_format,
     "R12v": r12_valueref,
     "RS": rs_stmt_replace,
     "R3": r3_opt_map,
